@@ -60,6 +60,9 @@ func guardFin(k, body string) string {
 	if k == "0" {
 		return body
 	}
+	if strings.HasPrefix(k, "G:") {
+		return "(=> " + k[2:] + " " + body + ")"
+	}
 	return "(=> (= " + k + " 0) " + body + ")"
 }
 
@@ -95,6 +98,8 @@ func (f *floatCtx) round(e *Exec, x string) string {
 		}
 	}
 	e.axiom(fmt.Sprintf("(=> (and (is_int %s) (<= (- %s) %s) (<= %s %s)) (= %s %s))", x, two53, x, x, two53, r, x))
+	// coarse relative error (valid also for subnormals and ties): rnd(x) lies between x/2 and 2x
+	e.axiom(fmt.Sprintf("(and (=> (>= %s 0.0) (and (<= %s (* 2.0 %s)) (>= %s (/ %s 2.0)))) (=> (<= %s 0.0) (and (>= %s (* 2.0 %s)) (<= %s (/ %s 2.0)))))", x, r, x, r, x, x, r, x, r, x))
 	if f.relerr {
 		e.axiom(fmt.Sprintf("(<= (absr (- %s %s)) (+ (* (/ 1.0 %s) (absr %s)) (/ 1.0 (^ 2.0 1075))))", r, x, two53, x))
 	}
@@ -183,6 +188,11 @@ func (e *Exec) floatBin(op string, a, b Value, t types.Type) Value {
 			a, b := p[0], p[1]
 			e.axiom(fmt.Sprintf("(=> (and (<= 0.0 %s) (<= %s 1.0) (>= %s 0.0)) (and (<= 0.0 %s) (<= %s %s)))", a, a, b, x, x, b))
 			e.axiom(fmt.Sprintf("(=> (and (<= 0.0 %s) (<= %s 1.0) (<= %s 0.0)) (and (>= 0.0 %s) (>= %s %s)))", a, a, b, x, x, b))
+		}
+		for _, o := range []Value{a, b} {
+			// o/2 is representable unless o is (near) subnormal
+			g := fmt.Sprintf("G:(and (= %s 0) (or (= %s 0.0) (>= (absr %s) (/ 1.0 1000000000000000000000000000000000000000000000000000000000000000000000000000000000000000000000000000000000000000000000000000000000000000000000000000000000000000000000000000000000000000000000000000000000000000000000000000000000000000000000000000000000000000000000000000000000000000000000000000000000000.0))))", fk(o), fv(o), fv(o))
+			e.fl.addPoint(e, g, e.nameReal("fh", "(/ "+fv(o)+" 2.0)"))
 		}
 		e.axiom(fmt.Sprintf("(=> (and (>= %s 0.0) (>= %s 0.0)) (>= %s 0.0))", av, bv, x))
 		e.axiom(fmt.Sprintf("(=> (or (= %s 0.0) (= %s 0.0)) (= %s 0.0))", av, bv, x))
